@@ -192,6 +192,23 @@ func c09CallTextProbes(c *Ctx) {
 	}
 	c09AcceptedHyps(c, "pipeline-probe", "C09.pipehyps", pe, pt)
 
+	// the sample texts of Props.C09 (AcceptedCallTexts), sampleCallText and samplePipelineText (the last of
+	// each list): the model's print of the normal form of what the real parser read is the real formatter's
+	// output (the comment `# c` is outside the model; the real formatter moves it before the statement)
+	if len(ce) == 4 && len(pe) == 6 {
+		nm := c.Drv.AskBatch([][]string{{"C09.normcall2", ce[3]}, {"C09.fmtpipeline", pe[5]}})
+		ff := c.Drv.AskBatch([][]string{{"C09.fmtcall2", "0", nm[0]}})
+		for _, x := range []struct{ text, want, path string }{{ct[3], unhx(ff[0]), "call.mro"}, {pt[5], unhx(nm[1]), "pipe.mro"}} {
+			out, err, pan := c09Format([]byte(x.text), x.path)
+			r.hist("accepted-call2-probe:sample-text-formatted")
+			if pan != "" || err != nil || strings.TrimPrefix(out, "# c\n") != x.want {
+				r.violate(Violation{Kind: "correspondence", Key: "C09:call2-format-mismatch",
+					What:  "sample text of Props.C09 (AcceptedCallTexts): the real formatter's output differs from the model's print of what the real parser read",
+					Input: map[string]interface{}{"text": x.text}, Impl: c09c2Impl(out, err, pan), Model: x.want, Broken: "correspondence C09.fmtcall2 / C09.fmtpipeline"})
+			}
+		}
+	}
+
 	// ---- two `using` blocks: the PARSER keeps the last ----
 	two := "call X() using (disabled = A.x,) using (volatile = true,)"
 	rp := c09c2Dump(two)
